@@ -66,8 +66,11 @@ impl CosetTable {
         self.part.find(c)
     }
 
-    fn merge(&mut self, a: usize, b: usize) {
+    // Returns the entries that were open in one of two merged rows and got
+    // filled in from the other.
+    fn merge(&mut self, a: usize, b: usize) -> Vec<(usize, isize)> {
         let mut queue: VecDeque<(usize, usize)> = VecDeque::from([(a, b)]);
+        let mut filled = vec![];
 
         while let Some((a, b)) = queue.pop_front() {
             let a = self.canon(a);
@@ -80,14 +83,18 @@ impl CosetTable {
                             queue.push_back((ag, bg));
                         } else {
                             self.set(b, g, ag);
+                            filled.push((b, g));
                         }
                     } else if let Some(bg) = self.get(b, g) {
                         self.set(a, g, bg);
+                        filled.push((a, g));
                     }
                 }
                 self.part.unite(a, b);
             }
         }
+
+        filled
     }
 
     fn compact(&self) -> CosetTable {
@@ -205,15 +212,21 @@ fn scan_both_ways(table: &CosetTable, w: &FreeWord, start: usize)
 }
 
 
+// Returns the table entries that were filled in as a consequence.
 fn scan_and_connect(
     table: &mut CosetTable, w: &FreeWord, start: usize
-) {
+)
+    -> Vec<(usize, isize)>
+{
     let (head, tail, gap, c) = scan_both_ways(table, w, start);
 
     if gap == 1 {
         table.join(head, tail, c);
+        vec![(head, c)]
     } else if gap == 0 && head != tail {
-        table.merge(head, tail);
+        table.merge(head, tail)
+    } else {
+        vec![]
     }
 }
 
@@ -239,15 +252,29 @@ pub fn coset_table(
                 assert!(n < 100_000, "Reached coset table limit of 100_000");
 
                 table.join(i, n, g);
-                for w in &rels {
-                    if w[0] == g {
-                        let c = table.canon(i);
-                        scan_and_connect(&mut table, w, c);
+
+                // Follow up on every entry that gets filled in, whether by
+                // the definition, by a deduction or by a coincidence;
+                // otherwise the enumeration need not terminate.
+                let mut pending = vec![(i, g)];
+                loop {
+                    while let Some((row, h)) = pending.pop() {
+                        for w in &rels {
+                            if w[0] == h {
+                                let c = table.canon(row);
+                                pending.extend(
+                                    scan_and_connect(&mut table, w, c)
+                                );
+                            }
+                        }
                     }
-                }
-                for w in subgroup_gens {
-                    let c = table.canon(0);
-                    scan_and_connect(&mut table, w, c);
+                    for w in subgroup_gens {
+                        let c = table.canon(0);
+                        pending.extend(scan_and_connect(&mut table, w, c));
+                    }
+                    if pending.is_empty() {
+                        break;
+                    }
                 }
             }
         }
